@@ -257,13 +257,20 @@ def run_check(mod, tier: str, seed: int, jobs: int = 16, only: str | None = None
                     shutil.rmtree(ctx.scratch, ignore_errors=True)
                 total.merge(ctx.to_result())
         else:
+            # chunks marked {"exclusive": true} are timing sensitive: they run one at a time after the parallel batch, so that the
+            # load of the check's own other chunks cannot disturb them
+            indexed = list(enumerate(specs))
+            jobs = max(1, min(jobs, getattr(mod, "MAX_PARALLEL_CHUNKS", jobs)))  # timing-sensitive checks limit their own load
             with ThreadPoolExecutor(max_workers=jobs) as ex:
                 futs = [
                     ex.submit(_run_chunk_subprocess, mod.ID, tier, seed, i, spec, timeout, tmp)
-                    for i, spec in enumerate(specs)
+                    for i, spec in indexed if not spec.get("exclusive")
                 ]
                 for f in futs:
                     total.merge(f.result())
+            for i, spec in indexed:
+                if spec.get("exclusive"):
+                    total.merge(_run_chunk_subprocess(mod.ID, tier, seed, i, spec, timeout, tmp))
     finally:
         shutil.rmtree(tmp, ignore_errors=True)
     if hasattr(mod, "finalize"):
